@@ -112,8 +112,8 @@ def run(W, chk):
 
 def uniq_owners(chk, A):
     """the per-owner share is total/len(owners): owners paid must be the same de-duplicated collection"""
-    loops = [e for e in A.calls(r"IntoIterator.*::into_iter$") if e.fn.endswith("withdraw_position")
-             and exact_origins(vfield(e.extra["dargs"][0], "[*]")) == {"Store(FARMS).owner"}]
+    loops = [e for e in A.calls(r"vec::Vec<.*IntoIterator.*::into_iter$|slice::Iter.*::into_iter$|\[T\].*::iter$") if e.fn.endswith("withdraw_position")
+             and exact_origins(vfield(A.d(e.extra["dargs"][0]), "[*]")) == {"Store(FARMS).owner"}]
     lens = [e for e in A.calls(r"Vec::<.*>::len$") if e.fn.endswith("withdraw_position")
             and all_origins(vfield(e.extra["dargs"][0], "[*]")) <= {"Store(FARMS).owner", "Store(FARMS)"} and all_origins(vfield(e.extra["dargs"][0], "[*]"))]
     ok = bool(loops) and all("#uniq" in e.extra["dargs"][0].fields for e in loops) and bool(lens) and all("#uniq" in e.extra["dargs"][0].fields for e in lens)
